@@ -248,7 +248,8 @@ func C17(c *Case) *Result {
 	}}
 
 	viol = ""
-	s = sim.Run(t, sim.Options{Hooks: rhooks, KeepTrace: c.KeepTrace}, func(env *sim.Env) {
+	// (byte-wise source reads cost one event per byte: the step cap grows with the stream)
+	s = sim.Run(t, sim.Options{Hooks: rhooks, KeepTrace: c.KeepTrace, MaxEvents: 200000 + 16*len(streamBytes)}, func(env *sim.Env) {
 		src := sim.NewSimSource(env.S, "in", streamBytes)
 		rd, err := NewReader(cfg.readerSpec(), src)
 		if err != nil {
